@@ -175,14 +175,15 @@ def parse_fns(src):
     i, depth_impl = 0, 0
     while i < len(toks):
         t = toks[i]
-        if t == ("id", "const") and toks[i + 2] == ("op", ":"):
+        if t == ("id", "const") and toks[i + 2] == ("op", ":") and toks[i + 1][1].isupper() and toks[i + 3][0] == "id" and toks[i + 4] == ("op", "="):
+            # `const NAME: uN = expr;` (not the `const N: usize` of generics)
             name = toks[i + 1][1]
             j = i
             while toks[j] != ("op", ";"):
                 j += 1
-            eq = next(k for k in range(i, j) if toks[k] == ("op", "="))
             ty = toks[i + 3][1]
-            consts[name] = (P(toks[eq + 1:j]).expr(), ty)
+            if ty in WIDTH:
+                consts[name] = (P(toks[i + 5:j]).expr(), ty)
             i = j + 1
         elif t == ("id", "fn"):
             name = toks[i + 1][1]
@@ -633,7 +634,8 @@ UNITS = [("Urandom.Generated.Scalar.splitmix", "src/rng/splitmix64.rs", ["mix64"
 
 GROUPS = [("Scalar", ["splitmix", "wyrand", "xoshiro", "util"], "src/rng/{splitmix64,wyrand,xoshiro256,util}.rs"),
           ("ScalarFloat01", ["float01"], "src/distr/float01.rs"),
-          ("ScalarUniformInt", ["uniform_int"], "src/distr/uniform/int.rs")]
+          ("ScalarUniformInt", ["uniform_int"], "src/distr/uniform/int.rs"),
+          ("ScalarChaCha", ["chacha"], "src/rng/chacha.rs")]
 
 
 def generate(repo, out_dir, write):
@@ -649,6 +651,8 @@ def generate(repo, out_dir, write):
                 parts.append(uniform_int(repo)[0])
             if "xoshiro" in members:
                 parts.append(generator_objects(repo))
+            if "chacha" in members:
+                parts.append(chacha_state(repo))
             parts.append("end Urandom.Generated.Scalar\n")
             text = "\n".join(parts)
         except (TranslateError, KeyError, IndexError, ValueError, StopIteration) as e:
@@ -928,7 +932,7 @@ class SP(P):
 
     def primary(self):
         t = self.peek()
-        if t[0] == "id" and t[1][:1].isupper() and self.peek(1) == ("op", "{") and self.peek(2)[0] == "id" and self.peek(3) in (("op", ":"), ("op", "}")):
+        if t[0] == "id" and t[1][:1].isupper() and self.peek(1) == ("op", "{") and self.peek(2)[0] == "id" and self.peek(3) in (("op", ":"), ("op", "}"), ("op", ",")):
             name = self.eat("id")
             self.eat("op", "{")
             fields = []
@@ -984,3 +988,216 @@ def generator_objects(repo):
 
 if __name__ == "__main__" and "--objects" in sys.argv:
     print(generator_objects(os.environ.get("VERIF_REPO", "/repo")))
+
+
+# ------------------------------------------------------------------------------------------------ ChaChaState (a struct of three arrays of u32)
+CHACHA_FIELDS = [("seed", 8), ("counter", 2), ("stream", 2)]
+CHACHA_METHODS = ["new", "get_state", "get_counter", "set_counter", "add_counter", "get_stream", "set_stream", "jump"]
+
+
+class StructFn(Fn):
+    """methods of `ChaChaState` (`impl ChaChaState`, `impl BlockRng for ChaChaState`) and `ChaCha::from_seed`.  An object is its twelve
+    32-bit words; `&mut self` methods return them again, `-> ChaChaState` methods return the twelve words of the result."""
+    PARSER = None     # set below
+
+    def __init__(self, unit, name, params, ret_toks, body_toks, sigs):
+        self.u, self.name, self.sigs = unit, name, sigs
+        self.params = params
+        self.stmts, self.tail = SP(body_toks).body()
+        self.env, self.muts, self.sig, self.lines, self.aux = {}, [], [], [], []
+        self.self_mut = False
+        for pname, ty, mut in params:
+            if pname == "self":
+                self.env["self"] = ("st", self.obj_names("self"))
+                self.sig += ["(%s : BitVec 32)" % n for n in self.flat(self.env["self"])]
+                self.self_mut = mut
+            else:
+                t = ty_of(ty)
+                if t[0] == "arr":
+                    names = ["%s_%d" % (pname, i) for i in range(t[2])]
+                    self.env[pname] = ("arr", names, t[1])
+                    self.sig += ["(%s : BitVec %d)" % (n, t[1]) for n in names]
+                else:
+                    self.env[pname] = ("var", pname, t)
+                    self.sig.append("(%s : %s)" % (pname, lean_ty(t)))
+        rt = "".join(str(x[1]) for x in ret_toks) if ret_toks else ""
+        self.ret_kind = "obj" if rt.startswith("ChaChaState") else "state16" if rt.startswith("[[u32") else "val" if ret_toks else None
+        self.ret = ty_of(ret_toks) if self.ret_kind == "val" else None
+        self.tmp = 0
+
+    def obj_names(self, prefix):
+        return {f: ["%s_%s_%d" % (prefix, f, i) for i in range(n)] for f, n in CHACHA_FIELDS}
+
+    def flat(self, v):
+        return [n for f, _ in CHACHA_FIELDS for n in v[1][f]]
+
+    def fresh_obj(self, prefix, texts):
+        """bind twelve texts to fresh names; returns the object"""
+        self.tmp += 1
+        o = ("st", self.obj_names("%s%d" % (prefix, self.tmp)))
+        for n, t in zip(self.flat(o), texts):
+            self.lines.append("let %s := %s" % (n, t))
+        return o
+
+    def typed(self, e):
+        if e[0] == "index" and e[1][0] == "field":
+            return ("u", 32)
+        if e[0] == "mcall" and e[2] in ("get_counter", "get_stream"):
+            return ("u", 64)
+        return Fn.typed(self, e)
+
+    def elems(self, e):
+        """an array-valued expression -> list of (text) of its u32 elements"""
+        if e[0] == "id" and e[1] in self.env and self.env[e[1]][0] == "arr":
+            return list(self.env[e[1]][1])
+        if e[0] == "id" and e[1] in self.u.consts and self.u.consts[e[1]][0][0] == "array":
+            return ["%d#32" % x[1] for x in self.u.consts[e[1]][0][1]]
+        if e[0] == "field" and e[1][0] == "id" and e[1][1] in self.env and self.env[e[1][1]][0] == "st":
+            return list(self.env[e[1][1]][1][e[2]])
+        if e[0] == "array":
+            return [self.expr(x, ("u", 32))[0] for x in e[1]]
+        raise TranslateError("not an array of words: %r" % (e,))
+
+    def obj_of(self, e):
+        if e[0] == "id" and e[1] in self.env and self.env[e[1]][0] == "st":
+            return self.env[e[1]]
+        if e[0] == "struct":
+            vals = {}
+            for f, fe in e[2]:
+                vals[f] = self.elems(fe if fe is not None else ("id", f))
+            if len(e[2]) == 1 and e[2][0][0] not in dict(CHACHA_FIELDS):        # a wrapper struct with one field (ChaCha { inner })
+                return self.obj_of(e[2][0][1] if e[2][0][1] is not None else ("id", e[2][0][0]))
+            return self.fresh_obj("lit", [t for f, _ in CHACHA_FIELDS for t in vals[f]])
+        if e[0] == "call" and e[1] in ("Random::wrap", "BlockRngImpl::new"):
+            return self.obj_of(e[2][0])
+        if e[0] == "call" and e[1] in ("ChaChaState::new", "ChaChaState::<N>::new"):
+            args = self.elems(e[2][0]) + [self.expr(e[2][1], ("u", 64))[0], self.expr(e[2][2], ("u", 64))[0]]
+            self.tmp += 1
+            o = ("st", self.obj_names("new%d" % self.tmp))
+            self.lines.append("let (%s) := Urandom.Generated.Scalar.chacha.new %s" % (", ".join(self.flat(o)), " ".join("(%s)" % a for a in args)))
+            return o
+        if e[0] == "mcall" and e[2] == "clone":
+            src = self.obj_of(e[1])
+            return self.fresh_obj("copy", self.flat(src))
+        raise TranslateError("not a ChaChaState: %r" % (e,))
+
+    def expr(self, e, expect=None):
+        k = e[0]
+        if k == "index" and e[1][0] == "field":
+            o = self.env[e[1][1][1]]
+            return o[1][e[1][2]][e[2][1]], ("u", 32)
+        if k == "cast":
+            t, ty = self.expr(e[1], None if e[1][0] != "num" else ("u", WIDTH[e[2][0]]))
+            w = WIDTH[e[2][0]]
+            return (t if ty == ("u", w) else "(%s).setWidth %d" % (t, w)), ("u", w)
+        if k == "mcall" and e[1][0] == "id" and e[1][1] in self.env and self.env[e[1][1]][0] == "st":
+            o = self.env[e[1][1]]
+            m = e[2]
+            if m in ("get_counter", "get_stream"):
+                return "(Urandom.Generated.Scalar.chacha.%s %s)" % (m, " ".join(self.flat(o))), ("u", 64)
+            if m in ("set_counter", "set_stream"):
+                a, _ = self.expr(e[3][0], ("u", 64))
+                self.lines.append("let (%s) := Urandom.Generated.Scalar.chacha.%s %s (%s)" % (", ".join(self.flat(o)), m, " ".join(self.flat(o)), a))
+                return None, None
+            raise TranslateError("method %s on a ChaChaState" % m)
+        return Fn.expr(self, e, expect)
+
+    def run(self, stmts):
+        for s in stmts:
+            if s[0] == "let" and s[1][0] == "pid":
+                try:
+                    o = self.obj_of(s[2])
+                    self.env[s[1][1]] = o
+                    continue
+                except TranslateError:
+                    pass
+                t, ty = self.expr(s[2])
+                self.env[s[1][1]] = ("var", s[1][1], ty)
+                self.lines.append("let %s := %s" % (s[1][1], t))
+            elif s[0] == "assign" and s[1][0] == "index" and s[1][1][0] == "field":
+                o = self.env[s[1][1][1][1]]
+                tgt = o[1][s[1][1][2]][s[1][2][1]]
+                t, _ = self.expr(s[2], ("u", 32))
+                self.lines.append("let %s := %s" % (tgt, t))
+            elif s[0] == "expr":
+                t, ty = self.expr(s[1])
+                if t is not None:
+                    raise TranslateError("expression statement without effect")
+            else:
+                Fn.run(self, [s])
+
+    def lean(self, stop_at=None):
+        self.lines = []
+        stmts = self.stmts
+        if stop_at:                   # from_seed: the value of the local `state` is the result
+            idx = next(i for i, s in enumerate(stmts) if s[0] == "let" and s[1] == ("pid", stop_at))
+            stmts = stmts[:idx + 1]
+        self.run(stmts)
+        if stop_at:
+            res = "(%s)" % ", ".join(self.flat(self.env[stop_at]))
+        elif self.ret_kind == "obj":
+            res = "(%s)" % ", ".join(self.flat(self.obj_of(self.tail)))
+        elif self.ret_kind == "state16":
+            if self.tail[0] != "array" or len(self.tail[1]) != 4:
+                raise TranslateError("get_state: four rows expected")
+            res = "(%s)" % ", ".join(t for row in self.tail[1] for t in self.elems(row))
+        elif self.ret_kind == "val":
+            res, _ = self.expr(self.tail, self.ret)
+        else:
+            if self.tail is not None:
+                t, _ = self.expr(self.tail)
+                if t is not None:
+                    raise TranslateError("%s: unexpected tail" % self.name)
+            res = "(%s)" % ", ".join(self.flat(self.env["self"]))
+        return "def %s %s :=\n%s\n" % (self.name, " ".join(self.sig), "\n".join("  " + l for l in self.lines + [res]))
+
+
+def chacha_state(repo):
+    path = os.path.join(repo, "src/rng/chacha.rs")
+    src = open(path).read()
+    raw, consts = parse_fns(src)
+    # array constants (CONSTANT)
+    toks = retok(tokenize(src))
+    for i, t in enumerate(toks):
+        if t == ("id", "const") and toks[i + 2] == ("op", ":") and toks[i + 3] == ("op", "[") and toks[i + 1][1].isupper():
+            te = matching(toks, i + 3)
+            if toks[te + 1] != ("op", "="):
+                continue
+            j = te + 1
+            depth = 0
+            while not (toks[j] == ("op", ";") and depth == 0):
+                if toks[j][0] == "op" and toks[j][1] in OPEN:
+                    depth += 1
+                elif toks[j][0] == "op" and toks[j][1] in OPEN.values():
+                    depth -= 1
+                j += 1
+            consts[toks[i + 1][1]] = (P(toks[te + 2:j]).expr(), "u32")
+
+    class U:
+        pass
+    unit = U()
+    unit.ns, unit.consts, unit.fns = "Urandom.Generated.Scalar.chacha", consts, {}
+    unit.fn = lambda n: None
+    unit.const_env = lambda n: None
+    out = ["namespace chacha"]
+    for m in CHACHA_METHODS:
+        cands = raw.get(m, [])
+        if m == "jump":
+            cands = [f for f in cands if "set_stream" in repr(f[2])]
+        if m == "new":
+            cands = [f for f in cands if len(f[0]) == 3]
+        if len(cands) != 1:
+            raise TranslateError("chacha.rs: method %s not found (or not unique: %d)" % (m, len(cands)))
+        params, ret, body = cands[0]
+        out.append(StructFn(unit, m, params, ret, body, None).lean())
+    cands = [f for f in raw.get("from_seed", []) if len(f[0]) == 1 and f[0][0][0] == "seed"]
+    if len(cands) != 1:
+        raise TranslateError("chacha.rs: from_seed not found")
+    params, ret, body = cands[0]
+    out.append(StructFn(unit, "from_seed", params, None, body, None).lean(stop_at="state"))
+    out.append("end chacha\n")
+    return "\n".join(out)
+
+
+if __name__ == "__main__" and "--chacha" in sys.argv:
+    print(chacha_state(os.environ.get("VERIF_REPO", "/repo")))
